@@ -50,8 +50,11 @@ def positions_ok(graph, default_bond, result):
         if min(dists) < 1e-6 * b:
             RECORDS.append(('c19.bonded_nodes_coincide', f'smallest bonded distance {min(dists)} for bond length {b}'))
         mean = sum(dists) / len(dists)
-        if not math.isclose(mean, b, rel_tol=1e-9, abs_tol=0):
-            RECORDS.append(('c19.scale', f'mean bond length {mean!r}, requested {b!r}'))
+        # zero-order (virtual) edges may or may not be regarded as bonds: accept either reading
+        real = [d for d, (a, c, o) in zip(dists, graph.edges(data='order', default=1)) if o != 0]
+        mean_real = sum(real) / len(real) if real else mean
+        if not (math.isclose(mean, b, rel_tol=1e-9, abs_tol=0) or math.isclose(mean_real, b, rel_tol=1e-9, abs_tol=0)):
+            RECORDS.append(('c19.scale', f'mean bond length {mean!r} (without zero-order edges {mean_real!r}), requested {b!r}'))
     except Exception as err:
         RECORDS.append(('c19.malformed_result', f'{type(err).__name__}: {err}'))
     return True
@@ -137,6 +140,15 @@ def cases(seed, tier, shard, nshards):
         kind, g = synth_graph(rng)
         yield dict(kind=kind, gid=len(g), edges=[list(e) for e in g.edges], nodes=list(g.nodes), how=rng.choice(['same', 'ints', 'sparse', 'str']),
                    bond=rng.choice([0.3, 1, 1.5, 7]), sub=rng.randrange(10 ** 6), features=[kind])
+    # graphs whose edges carry bond orders, zero-order (virtual) edges included
+    from ..gen import mol as M_
+    for _ in range(cfg['synth'] // (2 * nshards)):
+        g = M_.gen_coarse_graph(rng, rng.choice([2, 3, 5, 9, 16]), orders=(0, 1, 1, 1, 2, 3))
+        if not any(d['order'] >= 1 for _, _, d in g.edges(data=True)):
+            continue      # premise: at least one bond
+        yield dict(kind='ordered', gid=len(g), edges=[[a, b, d['order']] for a, b, d in g.edges(data=True)], nodes=list(g.nodes),
+                   how=rng.choice(['same', 'ints', 'str']), bond=rng.choice([0.3, 1, 1.5, 7]), sub=rng.randrange(10 ** 6),
+                   features=['bond_orders'] + (['zero_order_edge'] if any(d['order'] == 0 for _, _, d in g.edges(data=True)) else []))
     made = 0
     from . import c15
     while made < cfg['mol'] // nshards:
@@ -176,7 +188,11 @@ def run(case):
     else:
         g0 = nx.Graph()
         g0.add_nodes_from(case['nodes'])
-        g0.add_edges_from(case['edges'])
+        for e in case['edges']:
+            if len(e) == 3:
+                g0.add_edge(e[0], e[1], order=e[2])
+            else:
+                g0.add_edge(e[0], e[1])
         g = relabel(rng, g0, case['how'])
         txt = f"{case['kind']} graph {case['gid']} edges {case['edges'][:30]} relabel={case['how']}"
     np.random.seed(case['sub'] % (2 ** 31))
